@@ -54,11 +54,17 @@ ANCHORS = ["glue.core.state:VersionedDict.__setitem__", "glue.core.state:Version
 BLOCK = 6
 N_ROUNDS = {"quick": 30, "thorough": 160}       # blocks per (dv, cv) pair
 N_NEWEST = {"quick": 30, "thorough": 80}
+N_TYPES = {"quick": 4, "thorough": 40}
+# registered types that deliberately have no per-type recipe (none at present; a type registered in future without a
+# recipe makes the run INCONCLUSIVE until it is given one or is listed here with a reason)
+TYPES_WITHOUT_RECIPE = set()
 PAIRS = [(dv, cv) for dv in (1, 2, 3, 4, 5) for cv in (1, 2, 3, 4)]
 
 
 def cases(tier, seed):
     yield ["registry"]
+    for i in range(N_TYPES[tier]):
+        yield ["types", i]
     for r in range(N_ROUNDS[tier]):
         for (dv, cv) in PAIRS:
             yield ["pin", dv, cv, r]
@@ -144,6 +150,8 @@ def run_pinned(ctx, ses, dv, cv, skip):
     for df in diffs:
         sig = P02.signature_for(df, 1, ses, dc, dc1)
         sig.update(version_keys(dv, cv))
+        if df[0] == "external_link_table":
+            sig["links_within_one_dataset_after"] = df[3]["links_within_one_dataset_after"] > 0
         if df[0] == "component_list":
             fams = set()
             for (lab, kind) in df[3]["missing"]:
@@ -175,6 +183,9 @@ def run_pinned(ctx, ses, dv, cv, skip):
         ctx.count("sessions_compared_with_groups:" + tag)
     if desc["links"]:
         ctx.count("sessions_compared_with_links:" + tag)
+        ctx.count("external_link_table_rows_compared:" + tag, len(obs0["link_table"]))
+    if desc["links"] and all(d["coords"] not in (None, "wcs") and "function" in d["derived"].values() for d in desc["data"]):
+        ctx.count("sessions_compared_with_coords_internal_and_external_links:" + tag)
     ctx.evaluation(fp, nontrivial)
     if not diffs and ctx.rng.random() < 0.003:
         ctx.sample({"data_version": dv, "dc_version": cv, "descriptor": desc})
@@ -190,6 +201,9 @@ def run_case(ctx, case):
     if case[0] == "registry":
         registry_case(ctx)
         return
+    if case[0] == "types":
+        types_case(ctx)
+        return
     if case[0] == "pin":
         _, dv, cv, r = case
         opts, skip = projection(dv, cv)
@@ -200,16 +214,93 @@ def run_case(ctx, case):
             elif b == 2 and dv >= 3 and cv >= 4:
                 o["history"] = "remove_last"     # dataset removed before saving, still reachable through a key join
             elif b == 1:
-                o["want_link"] = ctx.rng.choice([k for k in L.LINK_KINDS if k not in opts.get("exclude_links", ())])
+                # world coordinates + a function-link derived column inside every dataset + one external link:
+                # v1-v3 records mix coordinate, internal and external links in one list and the loader must split them
+                o["want_link"] = ctx.rng.choice([k for k in L.LINK_KINDS if k not in opts.get("exclude_links", ())
+                                                 and k != "WCSLink"])
+                o["force_data"] = {"coords": ctx.rng.choice(["identity", "diagonal", "full", "coupled_symmetric"]),
+                                   "derived": ["function"]}
             ses = L.build_session(ctx.rng, o, None)
             run_pinned(ctx, ses, dv, cv, skip)
     elif case[0] == "newest":
-        # C02 owns the newest format; here only "a save uses the newest version and that version loads", on the
-        # sub-workload without arithmetic derived columns (whose restore defect is C02's finding)
-        opts = {"derived_kinds": ["function", "identity", "multi", "parsed"]}
+        # C02 owns the newest format; here only "a save uses the newest version and that version loads"
+        opts = {}
         for _ in range(BLOCK):
             ses = L.build_session(ctx.rng, opts, None)
             run_pinned(ctx, ses, None, None, set())
+
+
+# ---------------------------------------------------------------- per-type family
+def import_everything(ctx=None):
+    import importlib
+    import pkgutil
+    for pkgname in ("glue.core", "glue.viewers", "glue.plugins"):
+        pkg = importlib.import_module(pkgname)
+        for m in pkgutil.walk_packages(pkg.__path__, pkgname + "."):
+            if ".tests" in m.name or "qt" in m.name:
+                continue
+            try:
+                importlib.import_module(m.name)
+            except Exception:
+                if ctx is not None:
+                    ctx.count("registry:module_not_importable")
+
+
+def types_case(ctx):
+    """Every (type, version) in the saver registry x its recipes: written by that registered saver, loaded by the real
+    unserializer, compared by class, by value and by reference structure."""
+    from vf import lib_C12_types as T
+    import_everything()
+    S, U = GlueSerializer.dispatch._data, GlueUnSerializer.dispatch._data
+    for typ, versions in S.items():
+        name = tname(typ)
+        recipes = T.RECIPES.get(name)
+        for v in sorted(versions):
+            key = "%s@%d" % (name, v)
+            if not recipes:
+                ctx.count("type_family:no_recipe:" + key)
+                continue
+            for recipe in recipes:
+                rname = recipe.__name__
+                graph, check = recipe(ctx.rng)
+                pins = {typ: v} if len(versions) > 1 else {}
+                trace = {}
+                ctx.count("type_family:trips_attempted")
+                try:
+                    text = L.save(graph, include_data=True, pins=pins, trace=trace)
+                except Exception as exc:
+                    ctx.count("type_family:save_refused:%s:%s" % (key, type(exc).__name__))
+                    ctx.evaluation(["type", key, rname], False)
+                    continue
+                used = ("%s@%d" % (name, v)) in trace.get("savers", {})
+                if used:
+                    ctx.count("type_family:saver_exercised:" + key)
+                if typ not in U or v not in U[typ]:
+                    # a saver without loader (Session) is outside the statement's (saver AND loader) pairs
+                    ctx.count("type_family:no_loader:" + key)
+                    ctx.evaluation(["type", key, rname], False)
+                    continue
+                try:
+                    loaded = L.load(text)
+                except Exception as exc:
+                    ctx.evaluation(["type", key, rname], True)
+                    ctx.violation({"what": "type_load_raises", "type": name, "version": v, "recipe": rname,
+                                   "exc": type(exc).__name__, "failing_type": getattr(exc, "_vf_type", None)},
+                                  {"error": repr(exc)[:300]})
+                    continue
+                problems = check(loaded)
+                ctx.evaluation(["type", key, rname], True)
+                ctx.count("type_family:trips_compared")
+                ctx.count("type_family:compared:" + key)
+                if "direct" in graph:
+                    ctx.count("type_family:sharing_checked:" + key)
+                seen = set()
+                for kind, detail in problems:
+                    if kind in seen:
+                        continue
+                    seen.add(kind)
+                    ctx.violation({"what": "type_" + kind + "_differs" if kind != "sharing" else "type_sharing_lost",
+                                   "type": name, "version": v, "recipe": rname}, {"problem": detail})
 
 
 # ---------------------------------------------------------------- registry
@@ -243,6 +334,8 @@ def registry_case(ctx):
                 if not callable(versions[v]):
                     ctx.violation({"what": "registered_entry_not_callable", "side": side, "type": tname(typ)}, {"version": v})
             ctx.count("registered_%s:%s@%d" % (side, tname(typ), max(vs)))
+            for v in vs:
+                ctx.count("registered_%s_version:%s@%d" % (side, tname(typ), v))
             if len(vs) > 1:
                 ctx.count("registry:multi_version_%s:%s" % (side, tname(typ)))
     for typ, versions in S.items():
@@ -385,8 +478,21 @@ def floors(counters, tier):
         for what in ("derived", "groups", "links"):
             if counters.get("sessions_compared_with_%s:%s" % (what, tag), 0) < 2:
                 out.append("version pair %s: fewer than 2 compared sessions with %s" % (tag, what))
+        if counters.get("sessions_compared_with_coords_internal_and_external_links:" + tag, 0) < 1:
+            out.append("version pair %s: no compared session with world coordinates, an internal function link and an "
+                       "external link together" % tag)
         if dv >= 3 and counters.get("sessions_compared_with_key_join:" + tag, 0) < 1:
             out.append("version pair %s: no compared session with a key join" % tag)
+    # per-type family: every registered saver version is either exercised by a recipe or listed as without recipe
+    for k in counters:
+        if k.startswith("registered_saver_version:"):
+            key = k.split(":", 1)[1]
+            if counters.get("type_family:saver_exercised:" + key, 0) == 0 and \
+                    counters.get("type_family:save_refused:" + key + ":NotImplementedError", 0) == 0 and \
+                    key.split("@")[0] not in TYPES_WITHOUT_RECIPE:
+                out.append("registered saver %s has no per-type recipe exercising it" % key)
+    if counters.get("type_family:trips_compared", 0) < 30:
+        out.append("fewer than 30 per-type round trips compared")
     if counters.get("sessions_compared:newest", 0) < 8:
         out.append("fewer than 8 unpinned (newest-format) sessions compared")
     if counters.get("record_protocol_checked", 0) < 100:
